@@ -13,6 +13,8 @@ for id in "${ids[@]}"; do
   fi
   out=$(timeout 2400 ./check $prop quick 2>&1); rc=$?
   git -C /repo reset -q --hard HEAD
+  # evidence and replay files written while a change was applied say nothing about /repo itself
+  git -C /verif checkout -q -- evidence replays 2>/dev/null; git -C /verif clean -fdq replays
   cls=$(echo "$out" | grep -E "class=|VIOLATION-DETAIL" | sed 's/^ *//' | cut -c1-110 | head -2 | tr '\n' ';')
   if [ $rc -eq 1 ]; then echo "SEEDED $id: caught ($cls)"; else echo "SEEDED $id: MISSED exit=$rc $(echo "$out" | tail -2 | tr '\n' ' ' | cut -c1-200)"; missed=$((missed+1)); fi
 done
